@@ -1221,15 +1221,23 @@ def _parseparam(s: str) -> Generator[str]:
     start = 0
     while s.find(";", start) == start:
         start += 1
-        end = s.find(";", start)
-        ind, diff = start, 0
-        while end > 0:
-            diff += s.count('"', ind, end) - s.count('\\"', ind, end)
-            if diff % 2 == 0:
+        # Scan to the next ";" that is outside a quoted-string, honouring
+        # backslash escapes inside the quotes.
+        end = start
+        in_quotes = False
+        while end < len(s):
+            c = s[end]
+            if in_quotes:
+                if c == "\\":
+                    end += 1
+                elif c == '"':
+                    in_quotes = False
+            elif c == '"':
+                in_quotes = True
+            elif c == ";":
                 break
-            end, ind = ind, s.find(";", end + 1)
-        if end < 0:
-            end = len(s)
+            end += 1
+        end = min(end, len(s))
         f = s[start:end]
         yield f.strip()
         start = end
